@@ -8,6 +8,11 @@ def make(n, s, ballots, tie=None, wd=(), ud=()):
 
 
 def text(case, **kw):
+    if case.get('file'):
+        from . import repo
+        import os
+        with open(os.path.join(repo.REPO, case['file']), encoding='utf-8-sig') as f:
+            return f.read()
     return blt.render(case['n'], case['s'], [(m, r) for m, r in case['b']], tie=case.get('tie'),
                       withdrawn=case.get('wd') or (), undeclared=case.get('ud') or (), **kw)
 
@@ -17,6 +22,8 @@ def nballots(case):
 
 
 def short(case, cfg=None):
+    if case.get('file'):
+        return '%s (%d candidates, %d seats)%s' % (case['file'], case['n'], case['s'], (' | ' + ' '.join('%s=%s' % kv for kv in sorted(cfg.items()))) if cfg else '')
     s = '%d cand %d seats: %s' % (case['n'], case['s'],
                                   '; '.join('%dx%s' % (m, '>'.join(_tok(x) for x in r)) for m, r in case['b']))
     if case.get('tie'):
